@@ -68,6 +68,15 @@ def post_seconds(item, obs, leaf):
             ('spec_days*86400+time==t', total != z3.SignExt(32, t))]
 
 
+def post_ldt_to_seconds(item, obs, leaf):
+    yt, m, d, h, mi, s = [t for (_, t, _) in leaf.nondet][:6]
+    v64 = (z3.SignExt(32, cal.z3_days(yt, m, d)) * 86400 + z3.ZeroExt(56, h) * 3600 + z3.ZeroExt(56, mi) * 60
+           + z3.ZeroExt(56, s))
+    rep = z3.And(v64 > -(1 << 31), v64 < (1 << 31))
+    got = z3.Extract(31, 0, _bv(obs['secs'], 64))
+    return [('toEpochSeconds==spec_days*86400+time (representable)', z3.And(rep, z3.SignExt(32, got) != v64))]
+
+
 def _s(v, bits):
     return v - (1 << bits) if v >> (bits - 1) else v
 
@@ -92,6 +101,10 @@ def spec_concrete(r, tag, nd, obs):
         if tag.startswith('isLeap'):
             return bool(obs['leap']) != leap
         return obs['dim'] != (29 if nd['month'] == 2 and leap else cal.MONTH_LEN[nd['month'] - 1])
+    if e == 'c06_ldt_to_seconds':
+        yt = _s(nd['yearTiny'], 8)
+        v = cal.days(2000 + yt, nd['month'], nd['day']) * 86400 + nd['hour'] * 3600 + nd['minute'] * 60 + nd['second']
+        return -(1 << 31) < v < (1 << 31) and _s(obs['secs'] & 0xffffffff, 32) != v
     if e == 'c06_seconds_roundtrip':
         t = _s(nd['t'], 32)
         y, m, d = cal.civil(t // 86400)
@@ -138,6 +151,9 @@ def main():
     for k in range(3):
         items.append(dict(name='unix_roundtrip/%d' % k, entry='c06_unix_roundtrip',
                           args=[ucuts[k], ucuts[k + 1] - 1, 0, 0], timeout=to, feas_ms=2000, contracts=True))
+    for mo in range(1, 13):
+        items.append(dict(name='ldt_to_seconds/month=%02d' % mo, entry='c06_ldt_to_seconds', args=[mo, 0, 0, 0],
+                          timeout=to, feas_ms=1000, post=post_ldt_to_seconds, contracts=True))
     items.append(dict(name='local_time/all-bytes', entry='c06_local_time', args=[0, 0, 0, 0], timeout=to))
     items.append(dict(name='time_for_seconds', entry='c06_time_for_seconds', args=[0, 0, 0, 0], timeout=to))
     items.append(dict(name='date_iserror/all-bytes', entry='c06_date_iserror', args=[0, 0, 0, 0], timeout=to))
